@@ -8,7 +8,10 @@ from harness.common import Driver, MachineryError, Run, guarded, hx, sandbox, sn
 RULE = ("reference-encoder metafiles (v1 multi/single, v2, hybrid) whose name and path "
         "components are drawn from a hostile alphabet ('..', '.', '', absolute paths, "
         "'a/../../b', deep '..' chains, embedded separators, backslashes), also two entries that "
-        "normalise to one target; with matching candidate files "
+        "normalise to one target; entries WITHOUT content at the same hostile locations "
+        "(empty-directory nodes of the v2 / hybrid file tree, zero-length and directory-like entries "
+        "of the v1 list; fixed shapes via library and command line, and random ones) next to "
+        "ordinary files; with matching candidate files "
         "in the search directory so that the copy is attempted; the run is fenced with an "
         "audit hook (any mutating operation outside the destination is recorded and refused) "
         "and everything outside the destination is snapshotted before/after; distinct by "
@@ -28,8 +31,54 @@ def hostile_alphabet(box):
             ".\u202e.", ".\u200e.", "\u200b..", ".\x7f.", "..\n", "..\u200d", "x" * 300]
 
 
+def add_empty_dirs(meta, dirs):
+    """Insert EMPTY-DIRECTORY nodes (empty dictionaries, as torrentfile's own v2 / hybrid creators
+    emit for directories without files) into the v2 file tree; returns those inserted."""
+    tree = meta["info"]["file tree"]
+    done = []
+    for comps in dirs:
+        node = tree
+        for c in comps[:-1]:
+            if c not in node:
+                node[c] = {}
+            node = node[c]
+            if "" in node:
+                node = None         # below a file: not a tree any more
+                break
+        if node is None or "" in node or comps[-1] in node:
+            continue
+        node[comps[-1]] = {}
+        done.append(tuple(comps))
+    return done
+
+
+def hostile_dirs(box):
+    """Fixed hostile locations for entries that describe no content (empty directories of a v2
+    tree, zero-length entries of a v1 list): below '..', embedded separators, an absolute
+    element, a deep '..' chain, leaving the destination and coming back, and a harmless one."""
+    outside = os.path.join(box, "outside")
+    return [("..", "..", "escaped-a"), ("..", "inside-after-all"), ("sub/../../../escaped-b",), (outside, "absolute-dir", "inner"),
+            ("sub", "..", "..", "..", "escaped-c", "inner"), ("../" * 12 + "escaped-deep",),
+            ("..",) * 14 + ("escaped-deep2",), ("..", "..", "dest", "returned"), ("..", "..", "pack", "returned"),
+            ("..", "..", "dest.bak", "escaped-d"), ("..\\..\\escaped-e",), ("art", "harmless-empty")]
+
+
 def gen_meta(rng, box, forced=None):
     alpha = hostile_alphabet(box)
+    EMPTY[:] = []
+    if forced and forced >= 4:
+        # fixed shapes every run includes: entries WITHOUT content at hostile locations next to
+        # ordinary files that have candidates (4/6: v2, 5/7: hybrid - empty-directory nodes;
+        # 8/9: v1 - zero-length and directory-like entries of the `files` list)
+        version, name = {4: 2, 5: 3, 6: 2, 7: 3, 8: 1, 9: 1}[forced], "pack"
+        files = [(("f0.bin",), b"A" * 10), (("sub", "g.bin"), b"G" * (PL + 7))]
+        if version == 1:
+            files += [(comps + ("e%d.cfg" % i,), b"") for i, comps in enumerate(hostile_dirs(box))]
+            files += [(("..", "dirlike", ""), b""), (("../dirlike2/",), b""), (("..", "dirlike3", "."), b"")]
+        meta = refspec.ref_metafile(name, files, PL, version, single=False, trailing_pad=True, with_length=True)
+        if version != 1:
+            EMPTY[:] = add_empty_dirs(meta, hostile_dirs(box))
+        return meta, name, files, version, False
     if forced:
         # fixed shapes every run includes: two entries that normalise to ONE target (the later one
         # longer), for each meta version
@@ -69,7 +118,16 @@ def gen_meta(rng, box, forced=None):
         files = uniq or files[:1]
     meta = refspec.ref_metafile(name, files, PL, version, single=single, trailing_pad=True,
                                 with_length=rng.random() < 0.5)
+    if version != 1 and not single and rng.random() < 0.5:
+        # empty-directory nodes of the v2 tree at hostile locations ('' would turn its parent
+        # into a file node, so it is left out here)
+        pool = [a for a in alpha if a]
+        EMPTY[:] = add_empty_dirs(meta, [tuple(rng.choice(pool) for _ in range(rng.choice([1, 2, 2, 3])))
+                                         for _ in range(rng.randrange(1, 4))])
     return meta, name, files, version, single
+
+
+EMPTY = []      # the empty-directory nodes of the metafile gen_meta built last
 
 
 def case_stub(case_seed, version, single, name, files):
@@ -128,8 +186,10 @@ def run_case(run, drv, case_seed):
                             fd.write(b"x")           # smaller than any candidate
                     except OSError:
                         pass
+        emptydirs = [list(c) for c in EMPTY]
         case = {"case_seed": case_seed, "version": version, "single": single, "name": name,
-                "paths": [list(c) for c, _ in files], "dest_is_relative_link": linked}
+                "paths": [list(c) for c, _ in files], "dest_is_relative_link": linked,
+                "emptydirs": [[c.replace(box, "$BOX") for c in comps] for comps in emptydirs]}
         raised = None
         relative = rng.random() < 0.3
         old_cwd = os.getcwd()
@@ -161,6 +221,8 @@ def run_case(run, drv, case_seed):
             (os.path.join(box, k) + os.sep).startswith(realdest + os.sep)
         before = {k: v for k, v in snapshot(box).items() if not inside(k)}
         via_cli = rng.random() < 0.3
+        if -9 <= case_seed <= -4:
+            via_cli = case_seed in (-6, -7, -9)
         try:
             with effects.traced(fence=[dest, realdest]) as tr:
                 try:
@@ -197,12 +259,15 @@ def run_case(run, drv, case_seed):
             drv.ask(f"safejoin {hx(dest.encode())} {hx(rel.encode('utf8'))}",
                     (dict(case, rel=rel), got))
     hostile = any(c in ("..", ".", "") or "/" in c for comps, _ in files for c in comps[:-1]) \
-        or name in ("..", ".", "") or "/" in name
+        or name in ("..", ".", "") or "/" in name \
+        or any(c in ("..", ".") or "/" in c for comps in emptydirs for c in comps)
     run.case([version, single, name.replace(box, "$BOX"),
               [[c.replace(box, "$BOX") for c in comps] for comps, _ in files]],
              hostile and cands > 0, sample={k: (v if k != "name" else v.replace(box, "$BOX"))
                                             for k, v in case.items() if k != "paths"},
-             classes=[f"v{version}", "raised:" + str(raised), f"cands={min(cands, 2)}"])
+             classes=[f"v{version}", "raised:" + str(raised), f"cands={min(cands, 2)}"] +
+             (["empty-directory-nodes"] if emptydirs else []) +
+             (["fixed-entries-without-content"] if -9 <= case_seed <= -4 else []))
 
 
 def run(tier, seed, replay=None):
@@ -210,7 +275,7 @@ def run(tier, seed, replay=None):
     run = Run("C19", tier, seed, RULE)
     drv = Driver()
     seeds = [replay["case"]["case_seed"]] if replay else \
-        [-1, -2, -3] + [run.rng.randrange(10 ** 9) for _ in range(300 if tier == "quick" else 3000)]
+        [-1, -2, -3, -4, -5, -6, -7, -8, -9] + [run.rng.randrange(10 ** 9) for _ in range(300 if tier == "quick" else 3000)]
     for s in seeds:
         guarded(run, {"case_seed": s}, run_case, run, drv, s)
     for (case, got), req, out in drv.run():
@@ -224,4 +289,7 @@ def run(tier, seed, replay=None):
         if model != got:
             run.fail("impl-vs-model", case, {"correspondence": "Impl.safeJoin", "model": model,
                                              "impl": got})
+    if not replay:
+        from harness.common import translated_tie
+        translated_tie(run, ["safe_join"])
     return run.finish()
